@@ -108,6 +108,11 @@ def check(repo, res, tier):
                         'for ever)')
     borrow(repo, res, tier, c04, {'C04.T10'}, 'C05.L16')
     borrow(repo, res, tier, c18, {'C18.V4'}, 'C05.L16')
+    res.rule('C05.L17', 'adopted C18.V5, state-restoring part: a move refused for lack of room puts the observation back where '
+                        'it was taken from and clears the transfer slot -- an observation popped and not re-appended is in no '
+                        'buffer list, is never offered to the scheduler and its space is never freed; a slot left set counts '
+                        'against the tier for ever (a move that is *no longer refused* is C18\'s matter, not termination)')
+    borrow(repo, res, tier, c18, {'C18.V5'}, 'C05.L17', keep=lambda f: 'has no refusing path' not in f.construct)
 
 
 # ---------------------------------------------------------------------- L1
